@@ -1571,6 +1571,21 @@ int bufr_value_is_missing( BufrValue* bv )
  */
 int bufr_compare_value( const BufrValue *bv1, const BufrValue *bv2, double eps )
    {
+/*
+ * an integer compared with a real: compare them as reals, within eps, instead of
+ * truncating the real (a missing value of either type reads as the largest double)
+ */
+   if (((bv1->type == VALTYPE_INT8)||(bv1->type == VALTYPE_INT32)||(bv1->type == VALTYPE_INT64))&&
+       ((bv2->type == VALTYPE_FLT32)||(bv2->type == VALTYPE_FLT64)))
+      {
+      double  f1, f2;
+
+      f1 = bufr_value_get_double( bv1 );
+      f2 = bufr_value_get_double( bv2 );
+      if (fabs(f1-f2) <= eps) return 0;
+      return -1;
+      }
+
    switch( bv1->type )
       {
       case VALTYPE_INT8 :
